@@ -20,10 +20,12 @@ Part 2: the functional layer (Model/C04Key, C04Classify, C04Sort).
                                   not depend on the order in which the sub-jobs run
   * `distribution_is_partition`, `bucket_bounds_cover`, `equal_bucket_is_splitter`, `classification_monotone`,
     `classification_lower_bound`, `builder_writes_search_tree`, `classification_monotone_build`   classification /
-    distribution (OPEN: `index_ok_statement` beyond depth 10)
+    distribution; `index_ok`, `splitter_lcp_entries`
   * `sample_sort_step_lemma`      buckets sorted with exact inner LCPs ⇒ after `ps5_sample_sort_lcp` the whole
                                   range is sorted with exact LCPs
-  * OPEN: the end-to-end theorem about `sortM` (statement below)
+  * `sortAll_correct`, `sortAll_answer_unique`, `sortM_correct`   the end-to-end theorem: every parameter set and
+                                  chooser, sorted permutation, exact LCPs, no out-of-bounds read
+  * OPEN: termination of the recursion (`sortAll_terminates_statement`)
 -/
 import TlxVerif.Proofs.C04ProtoInv
 import TlxVerif.Proofs.C04Str
@@ -33,6 +35,7 @@ import TlxVerif.Proofs.C04Classify
 import TlxVerif.Proofs.C04Tree
 import TlxVerif.Proofs.C04Index
 import TlxVerif.Proofs.C04Slcp
+import TlxVerif.Proofs.C04Main
 import TlxVerif.Model.C04Sort
 namespace TlxVerif.C04
 
@@ -542,15 +545,67 @@ theorem sample_sort_step_lemma (c : Classifier) (useCalc : Bool) (p : Str) (rs :
     lcpOk (rs.map (·.out)).flatten l ∧ (rs.map (·.out)).flatten.Pairwise (fun a b => strLe a b = true) :=
   lcpPass_good c useCalc p rs hb h
 
-/-- the end-to-end statement of the functional layer: for every threshold tuning, big/small
-decision, sample and pivot choice the model returns a correct answer and never reads out of bounds -/
-def sortAll_correct_statement : Prop :=
-  ∀ (env : Env) (fuel : Nat) (strs : List Str) (r : Res), (∀ s ∈ strs, nulFree s) →
-    (sortAll env fuel strs = .ok r → SortedLcp strs r) ∧ sortAll env fuel strs ≠ .error .oob
--- OPEN: sortAll_correct_statement — proved so far: the key/LCP arithmetic every step relies on (`key_*`),
---   disjointness and order independence of the sub-job ranges; missing: `build`/`findBkt` = lower-bound
---   `splitter_lcp` = LCP of neighbouring splitters (common prefix of a `<` bucket), the MKQS / insertion_sort_cache lemmas and the
---   induction over the recursion that combines them.
---   The model is tied to the implementation by the correspondence on order, LCPs and classifier internals.
+/-! ### the end-to-end theorem -/
+
+/-- **`sort_strings_parallel` (functional model) is correct for every parameter set and chooser.**
+`env` bundles `smallsort_threshold`, `inssort_threshold`, `TreeBits`, the classifier variant, the
+big/small decision of `enqueue` (any function, hence every `sequential_threshold()` incl.
+`enable_rest_size`), the samples drawn by every step and the pivots of every MKQS step.  `EnvOk`:
+thresholds ≥ 1, `1 ≤ TreeBits ≤ 31`, an empty range is never sent into a sample step, sample indices
+are `< n`.  For NUL-free input strings a run of the model that does not exhaust its fuel returns a
+permutation of the strings, sorted in unsigned-byte lexicographic order, with an LCP array of the same
+length whose entries `1..` are the exact LCPs of neighbours; and no run ever reads outside a string,
+the sample array, the splitter tree or the LCP array (`Err.oob`) or hits an internal error.
+Base cases are the C03 model of `insertion_sort` (`C03.insertionSort`, LCP overload). -/
+theorem sortAll_correct (env : Env) (henv : EnvOk env) (fuel : Nat) (strs : List Str)
+    (hnf : ∀ s ∈ strs, nulFree s) :
+    (∀ r, sortAll env fuel strs = .ok r → SortedLcp strs r) ∧
+      sortAll env fuel strs ≠ .error .oob ∧ sortAll env fuel strs ≠ .error .internal := by
+  have h := sortAll_safe henv fuel strs hnf
+  refine ⟨fun r hr => h.of_ok hr, ?_, ?_⟩ <;>
+  · intro e; rw [e] at h; cases h
+
+/-- **The answer is independent of the parameter set, the samples, the pivots and every big/small
+decision** (and hence of how the work is split into jobs). -/
+theorem sortAll_answer_unique {env1 env2 : Env} (h1 : EnvOk env1) (h2 : EnvOk env2) {f1 f2 : Nat}
+    {strs : List Str} (hnf : ∀ s ∈ strs, nulFree s) {r1 r2 : Res}
+    (e1 : sortAll env1 f1 strs = .ok r1) (e2 : sortAll env2 f2 strs = .ok r2) :
+    r1.out = r2.out ∧ r1.lcp.drop 1 = r2.lcp.drop 1 :=
+  sortAll_unique h1 h2 hnf e1 e2
+
+/-- the recursion itself: every call (any mode, any range with a common prefix) is correct -/
+theorem sortM_correct {env : Env} (henv : EnvOk env) (fuel : Nat) (mode : Mode) (strs : List Str) (p : Str)
+    (hr : RangeOk p strs) (hpre : ModePre mode strs) :
+    Safe (sortM env fuel mode strs p.length) (SortedLcp strs) :=
+  sortM_recOk henv fuel mode strs p hr hpre
+
+/-- non-vacuity: a small tuning satisfies `EnvOk`, and the model sorts with it -/
+def demoEnv : Env :=
+  { p := { treebits := 1, smallsort := 4, inssort := 3 }
+    isBig := fun n => n > 6
+    sampler := fun n cnt => (List.range cnt).map fun j => (j * 7 + 3) % n
+    pivot := fun keys => keys.length / 2 }
+
+theorem demoEnv_ok : EnvOk demoEnv := by
+  refine ⟨by decide, by decide, ?_, by decide, by decide, ?_, ?_⟩
+  · intro n h; simp [demoEnv] at h; omega
+  · intro n cnt; simp [demoEnv]
+  · intro n cnt hn i hi
+    simp only [demoEnv, List.mem_map, List.mem_range] at hi
+    obtain ⟨j, _, rfl⟩ := hi
+    exact Nat.mod_lt _ hn
+
+-- (runs with sample steps involve `List.mergeSort`, which the kernel does not unfold; they are exercised by the
+-- driver on every correspondence case — here the insertion-sort base case)
+example : (sortAll demoEnv 5 [[98, 97], [97]]).toOption.map (fun r => (r.out, r.lcp)) =
+    some ([[97], [98, 97]], [0, 0]) := by decide +kernel
+
+/-- what is still missing for totality: enough fuel always exists (the recursion terminates) -/
+def sortAll_terminates_statement : Prop :=
+  ∀ (env : Env), EnvOk env → ∀ strs : List Str, (∀ s ∈ strs, nulFree s) →
+    ∃ fuel, sortAll env fuel strs ≠ .error .fuel
+-- OPEN: sortAll_terminates_statement — every recursive call works on fewer strings or at a larger depth
+--   (measure: number of strings plus remaining characters), not yet proved; the theorems above hold for
+--   every fuel value, the driver uses 4·(n + longest string) + 100.
 
 end TlxVerif.C04
